@@ -31,6 +31,7 @@ func verifHarness_C04_resume() {
 	// the node it reconnects to has applied some prefix, possibly not yet batch k0
 	vApplied = verifCase(n + 1)
 	// findings are recorded per scenario class: the node already has the batch named by lastseen, or it lags behind it
+	vK0, vHow = k0, ""
 	vLagTag = ":node-has-the-batch"
 	if vApplied <= k0 {
 		vLagTag = ":lagging-node"
@@ -68,9 +69,9 @@ func verifHarness_C04_resume() {
 				}
 			}
 		}
-		verifAssert(!seen, "no-duplicate-after-resume"+vLagTag)
+		verifAssert(!seen, "no-duplicate-after-resume"+vLagTag+vHow)
 		for j2 := 0; j2 < j; j2++ {
-			verifAssert(got[j2] != got[j], "no-duplicate-after-resume"+vLagTag)
+			verifAssert(got[j2] != got[j], "no-duplicate-after-resume"+vLagTag+vHow)
 		}
 	}
 	// (2) everything after the resume point arrives
@@ -81,7 +82,7 @@ func verifHarness_C04_resume() {
 				found = true
 			}
 		}
-		verifAssert(found, "no-loss-after-resume"+vLagTag)
+		verifAssert(found, "no-loss-after-resume"+vLagTag+vHow)
 	}
 	verifAssert(len(got) >= 0, "delivery-sequence-compared")
 	// (3) in id order
